@@ -550,6 +550,9 @@ func TestVerifC17(t *testing.T) {
 		if err != nil {
 			t.Fatal(err)
 		}
+		if strings.HasPrefix(rf.Scenario, "extra/http/") {
+			c17HTTP(t, out)
+		}
 		for _, sc := range scenarios {
 			if sc.name != rf.Scenario {
 				continue
@@ -579,7 +582,7 @@ func TestVerifC17(t *testing.T) {
 		}
 		e := &verifmc.Explorer{
 			Scenario: sc.name, Bound: sc.bound, Shard: shard, NShards: nshards,
-			Deadline: time.Now().Add(share), DetEvery: 50, Inflight: os.Getenv("VERIF_INFLIGHT"),
+			Deadline: time.Now().Add(share), DetEvery: 50, Inflight: os.Getenv("VERIF_INFLIGHT"), ClaimDir: os.Getenv("VERIF_OUT"),
 			Run: func(prefix []int) *verifmc.ExecResult { return filterProps(runC17(t, sc, prefix), []string{prop}) },
 		}
 		e.Explore()
@@ -593,6 +596,9 @@ func TestVerifC17(t *testing.T) {
 	}
 	if f := os.Getenv("VERIF_INFLIGHT"); f != "" {
 		os.Remove(f)
+	}
+	if shard == 0 {
+		c17HTTP(t, out)
 	}
 	out.WallS = time.Since(start).Seconds()
 	if err := verifmc.WriteShardResult(out); err != nil {
